@@ -479,6 +479,26 @@ def chunk_rule(prog, rep):
                         bad = (cj, f"`{nm.id}` is carried over from the previous iteration (`{norm(d)[:50]}`)")
                     elif v is not None:
                         todo.append(v)
+    # the documented gap conjunct (gap to the END OF THE INPUT, which is <= 0 for time-ordered input, and exactly 0 for a
+    # zero-length last event) holds for every event only if the bound it is compared with is positive: that bound's default
+    a_ = fi.node.args
+    pos = a_.posonlyargs + a_.args
+    dflt = {p_.arg: d_ for p_, d_ in zip(pos[len(pos) - len(a_.defaults):], a_.defaults)}
+    dflt.update({p_.arg: d_ for p_, d_ in zip(a_.kwonlyargs, a_.kw_defaults) if d_ is not None})
+    for cj in conj:
+        if isinstance(cj, ast.Compare) and len(cj.ops) == 1 and isinstance(cj.ops[0], (ast.Lt, ast.LtE, ast.Gt, ast.GtE)):
+            lo, hi = (cj.left, cj.comparators[0]) if isinstance(cj.ops[0], (ast.Lt, ast.LtE)) else (cj.comparators[0], cj.left)
+            strict = isinstance(cj.ops[0], (ast.Lt, ast.Gt))
+            ps_ = [n.id for n in ast.walk(hi) if isinstance(n, ast.Name) and n.id in dflt]
+            if len(ps_) == 1 and not any(isinstance(n, ast.Name) and n.id in dflt for n in ast.walk(lo)):
+                d_ = dflt[ps_[0]]
+                dv = d_.value if isinstance(d_, ast.Constant) and isinstance(d_.value, (int, float)) and not isinstance(d_.value, bool) else (-d_.operand.value if isinstance(d_, ast.UnaryOp) and isinstance(d_.op, ast.USub) and isinstance(d_.operand, ast.Constant) and isinstance(d_.operand.value, (int, float)) else None)
+                plain = isinstance(hi, ast.Name) or (isinstance(hi, ast.Call) and norm(hi.func) in ("timedelta", "datetime.timedelta") and not hi.args and len(hi.keywords) == 1 and isinstance(hi.keywords[0].value, ast.Name))
+                if dv is None or not plain:
+                    rep.undecided("SUM", fi.short, f"default of {ps_[0]}", f"cannot evaluate the bound `{norm(hi)[:60]}` of the gap conjunct for the default `{norm(d_)}`", fi.loc(i))
+                else:
+                    okd = dv > 0 if strict else dv >= 0
+                    rep.check(okd, "SUM", fi.short, f"default of {ps_[0]}", f"`{norm(cj)[:60]}` holds for a gap of 0 with the default {dv}", f"with the default {ps_[0]}={dv} the conjunct `{norm(cj)[:70]}` is false for a gap of exactly 0 (a zero-length last event: its gap to the end of the input is 0): that event opens a chunk of its own although it shares the key's value with the run before it, so by default the chunks are not the runs of equal values", fi.loc(i))
     rep.check(bad is None, "SUM", fi.short, "run test: nothing but the key's value and the documented end-of-input gap", "other conjuncts depend on the event, the input list and the parameters only", (f"the run test has a conjunct `{norm(bad[0])[:80]}`; {bad[1]}: equal-valued neighbours are split into separate chunks by something other than the key's value (e.g. the gap to the chunk's end), so the chunks are no longer the runs that share the key's value" if bad else ""), fi.loc(i))
 
 
@@ -618,6 +638,8 @@ VARIANTS = [
     ("B merge accumulates into the input event", M, "            merged_events[composite_key] = Event(\n                timestamp=event.timestamp, duration=event.duration, data={}\n            )", "            merged_events[composite_key] = event", "PURE"),
     ("B chunk forgets duration", CH, "            chunked_event.duration += event.duration\n", "", "SUM"),
     ("B chunk forgets subevent", CH, '            chunked_event.data["subevents"].append(event)\n', "", "SUM"),
+    ("B chunk pulsetime defaults to zero", CH, "pulsetime: float = 5.0", "pulsetime: float = 0.0", "SUM"),
+    ("OK chunk pulsetime defaults to one second", CH, "pulsetime: float = 5.0", "pulsetime: float = 1.0", "ok"),
     ("B chunk run test ignores value", CH, "            and chunked_events[-1].data[key] == event.data[key]\n", "", "SUM"),
     ("B sort ascending durations", S, "key=lambda e: e.duration, reverse=True", "key=lambda e: e.duration", "SHAPE"),
     ("B sort by duration in sort_by_timestamp", S, "return sorted(events, key=lambda e: e.timestamp)", "return sorted(events, key=lambda e: e.duration)", "SHAPE"),
